@@ -29,6 +29,14 @@ using namespace libcellml;
 
 namespace {
 
+// props/C07_ext.cpp includes this file with C07_EXT defined: a second binary with further generator dimensions (added after
+// the independent exploration). They live in their own binary so that the saved tapes of props/C07.cpp keep their meaning.
+#ifdef C07_EXT
+constexpr bool kExt = true;
+#else
+constexpr bool kExt = false;
+#endif
+
 // ================================================================================================ known defects
 // Defects of the tree this harness was written against that would otherwise cost a crashed or hung child in a large share
 // of the scenarios, or blur every verdict. Whether each is present in the library under test is *probed* once per process
@@ -43,8 +51,9 @@ struct Defects
     bool falseFlattenCycle = true; // flattenModel(): sibling unit imports through the same files are reported as a cycle
     bool unitCycleOverflow = true; // flattenModel(): checkUnitsForCycles() recurses without bound on cyclic ordinary units
     bool flattenAfterCycle = true; // flattenModel() after a failed resolution misses cycles through child components / component units
+    bool fetchSkipsChildrenOfNestedImportElement = true; // resolveImports(): in a library file, what is encapsulated below an import element that is itself a child is never fetched
     bool flattenNullChildUnits = true; // flattenModel(): child of an imported component of f0 using imported units of f0: null dereference
-    bool shallowFetch() const { return fetchSkipsUnitChildOfLocalUnitChild || fetchSkipsUnitChildOfComponentUnits || fetchSkipsUnitsOfChildComponent; }
+    bool shallowFetch() const { return fetchSkipsUnitChildOfLocalUnitChild || fetchSkipsUnitChildOfComponentUnits || fetchSkipsUnitsOfChildComponent || (kExt && fetchSkipsChildrenOfNestedImportElement); }
 };
 Defects gDef;
 
@@ -58,6 +67,7 @@ struct UEnt
     std::string ref;
     std::string href; // only for imports whose target is not a file of the graph
     std::vector<std::string> kids; // unit children: standard unit names or names of units of the same file
+    bool bad = false; // an unknown child element inside the units element: a parser error *related* to these units
 };
 
 struct CEnt
@@ -70,6 +80,7 @@ struct CEnt
     std::vector<std::string> varUnits; // one variable per entry
     std::vector<std::string> cnUnits; // one <cn cellml:units=…> per entry
     std::vector<CEnt> kids; // encapsulated children (allowed below imported components too)
+    bool bad = false; // an unknown child element inside the component element: a parser error related to this component
 };
 
 enum FState
@@ -77,13 +88,15 @@ enum FState
     FS_OK,
     FS_MISSING,
     FS_TRUNC,
-    FS_NONCELLML
+    FS_NONCELLML,
+    FS_NULLENTRY // the file is fine, but after a first resolution its library entry is replaced by a null model (replaceModel(nullptr, key))
 };
 
 struct FSpec
 {
     std::string dir; // "" or "sub/"
     std::string fname;
+    std::string modelName; // "" = m<i>
     int version = 20; // 20 or 11
     bool group = false; // one <import> element per target file instead of one per imported entity
     bool junk = false; // an unknown element below <model>: a parser error that is unrelated to any imported entity
@@ -99,6 +112,7 @@ struct FSpec
 struct Graph
 {
     std::vector<FSpec> files;
+    bool parserSeesFiles = true; // false: the files are parsed by the harness and registered with addModel(): the importer never sees parser errors
 };
 
 bool isStd(const std::string &n)
@@ -165,13 +179,30 @@ std::string hrefFromTo(const Graph &g, int from, int to)
 {
     const FSpec &a = g.files[static_cast<size_t>(from)];
     const FSpec &b = g.files[static_cast<size_t>(to)];
-    if (a.dir == b.dir) {
-        return b.fname;
+    // relative path from directory a.dir to b.dir + b.fname (directories are "" or "x/y/")
+    auto split = [](const std::string &d) {
+        std::vector<std::string> out;
+        size_t p = 0;
+        while (p < d.size()) {
+            size_t q = d.find('/', p);
+            out.push_back(d.substr(p, q - p));
+            p = q + 1;
+        }
+        return out;
+    };
+    std::vector<std::string> da = split(a.dir), db = split(b.dir);
+    size_t common = 0;
+    while (common < da.size() && common < db.size() && da[common] == db[common]) {
+        ++common;
     }
-    if (a.dir.empty()) {
-        return b.dir + b.fname;
+    std::string r;
+    for (size_t i = common; i < da.size(); ++i) {
+        r += "../";
     }
-    return "../" + b.fname; // only one level of sub-directory exists
+    for (size_t i = common; i < db.size(); ++i) {
+        r += db[i] + "/";
+    }
+    return r + b.fname;
 }
 
 std::string hrefOf(const Graph &g, int from, int file, const std::string &href)
@@ -187,7 +218,7 @@ std::string serialise(const Graph &g, int i)
     const std::string ns = v11 ? "http://www.cellml.org/cellml/1.1#" : "http://www.cellml.org/cellml/2.0#";
     std::ostringstream o;
     o << "<?xml version=\"1.0\" encoding=\"UTF-8\"?>\n";
-    o << "<model xmlns=\"" << ns << "\" xmlns:cellml=\"" << ns << "\" xmlns:xlink=\"http://www.w3.org/1999/xlink\" name=\"m" << i << "\">\n";
+    o << "<model xmlns=\"" << ns << "\" xmlns:cellml=\"" << ns << "\" xmlns:xlink=\"http://www.w3.org/1999/xlink\" name=\"" << (f.modelName.empty() ? "m" + std::to_string(i) : f.modelName) << "\">\n";
     std::vector<const CEnt *> comps;
     allComps(f.comps, comps);
     // imports
@@ -229,7 +260,7 @@ std::string serialise(const Graph &g, int i)
     }
     for (const auto &u : f.units) {
         if (!u.imp) {
-            o << "  <units name=\"" << u.name << "\">";
+            o << "  <units name=\"" << u.name << "\">" << (u.bad ? "<junk/>" : "");
             for (const auto &k : u.kids) {
                 o << "<unit units=\"" << k << "\"/>";
             }
@@ -242,7 +273,7 @@ std::string serialise(const Graph &g, int i)
         if (c->imp) {
             continue;
         }
-        o << "  <component name=\"" << c->name << "\">";
+        o << "  <component name=\"" << c->name << "\">" << (c->bad ? "<junk/>" : "");
         size_t k = 0;
         for (const auto &vu : c->varUnits) {
             o << "<variable name=\"a" << k++ << "\" units=\"" << vu << "\"/>";
@@ -447,7 +478,9 @@ std::string blindPattern(const std::string &path)
                                {"vk", &gDef.fetchSkipsUnitChildOfComponentUnits, "unit-child-of-component-units"},
                                {"nk", &gDef.fetchSkipsUnitChildOfComponentUnits, "unit-child-of-component-units"},
                                {"cv", &gDef.fetchSkipsUnitsOfChildComponent, "units-of-child-component"},
-                               {"cn", &gDef.fetchSkipsUnitsOfChildComponent, "units-of-child-component"}};
+                               {"cn", &gDef.fetchSkipsUnitsOfChildComponent, "units-of-child-component"},
+                               {"ce", &gDef.fetchSkipsChildrenOfNestedImportElement, "children-of-nested-import-element"},
+                               {"ee", &gDef.fetchSkipsChildrenOfNestedImportElement, "children-of-nested-import-element"}};
     size_t best = std::string::npos;
     std::string tok;
     for (const auto &p : pats) {
@@ -534,6 +567,7 @@ struct Walker
         case FS_MISSING: failure(true, "file-missing", path); return false;
         case FS_TRUNC: failure(true, "file-truncated", path); return false;
         case FS_NONCELLML: failure(true, "file-not-cellml", path); return false;
+        case FS_NULLENTRY: failure(true, "library-entry-null", path); return false;
         default: return true;
         }
     }
@@ -570,6 +604,11 @@ struct Walker
         }
         if (onEntity) {
             onEntity(file, 'U', name, path);
+        }
+        if (u->bad && g.parserSeesFiles && f.version != 20) {
+            failure(false, "parser-error-in-1.x-file", path);
+        } else if (u->bad && g.parserSeesFiles) {
+            failure(edge == 'I', edge == 'I' ? "entity-has-parser-error" : "parser-error-in-dependency", path);
         }
         if (!u->imp && path.size() >= 5 && path.compare(path.size() - 4, 4, "IkIk") == 0 && std::strchr("vnk", path[path.size() - 5]) != nullptr) {
             ev.nestedUnitsChainWithLocalChild = true;
@@ -612,6 +651,12 @@ struct Walker
         if (onEntity) {
             onEntity(file, 'C', name, path);
         }
+        if (c->bad && g.parserSeesFiles && f.version != 20) {
+            failure(false, "parser-error-in-1.x-file", path); // what the permissive parser makes of it is not the importer's business
+        } else if (c->bad && g.parserSeesFiles) {
+            // the importer refuses an import whose referenced entity has a parser error; below that it does not look
+            failure(edge == 'I', edge == 'I' ? "entity-has-parser-error" : "parser-error-in-dependency", path);
+        }
         if (c->imp) {
             ev.usesC = true;
             noteImport(file, 'C', name, path);
@@ -631,8 +676,10 @@ struct Walker
             }
         }
         if (file != 0) { // children of components of f0 that matter are import elements of f0 themselves
+            // e: encapsulated below an import element (those components belong to this file, not to the imported one)
+            const char kidEdge = c->imp ? 'e' : 'c';
             for (const auto &k : c->kids) {
-                comp(file, k.name, 'c', path + "c");
+                comp(file, k.name, kidEdge, path + std::string(1, kidEdge));
             }
         }
         stack.pop_back();
@@ -698,10 +745,12 @@ enum FaultKind
     K_RENAMED,
     K_BACKEDGE,
     K_UNITCYCLE,
+    K_BADENTITY, // (C07_ext) a parser error inside the definition of an entity
+    K_NULLENTRY, // (C07_ext) after a first resolution the library entry of a file is replaced by a null model
     K_COUNT
 };
 const char *const kKindName[] = {"none", "file-missing", "truncated-0-bytes", "truncated-in-declaration", "truncated-in-start-tag", "truncated-before-closing-tag",
-                                 "not-cellml", "entity-removed", "entity-renamed", "back-edge", "units-cycle"};
+                                 "not-cellml", "entity-removed", "entity-renamed", "back-edge", "units-cycle", "entity-has-parser-error", "library-entry-null"};
 
 struct Fault
 {
@@ -863,6 +912,44 @@ std::vector<Fault> applicableFaults(const Graph &g, bool fileRoute, bool bounded
             }
         }
     }
+    if (kExt) {
+        for (size_t j = 1; j < g.files.size(); ++j) {
+            int fj = static_cast<int>(j);
+            const FSpec &f = g.files[j];
+            if (fileRoute) {
+                for (const auto &u : f.units) {
+                    if (!u.imp) {
+                        Fault x;
+                        x.kind = K_BADENTITY;
+                        x.file = fj;
+                        x.ek = 'U';
+                        x.name = u.name;
+                        x.needed = neededEnt.count(Walker::nodeId(fj, 'U', u.name)) != 0;
+                        out.push_back(x);
+                    }
+                }
+                std::vector<const CEnt *> comps;
+                allComps(f.comps, comps);
+                for (const CEnt *c : comps) {
+                    if (!c->imp) {
+                        Fault x;
+                        x.kind = K_BADENTITY;
+                        x.file = fj;
+                        x.ek = 'C';
+                        x.name = c->name;
+                        x.needed = neededEnt.count(Walker::nodeId(fj, 'C', c->name)) != 0;
+                        out.push_back(x);
+                    }
+                }
+            }
+            if (ev.fileVisits.count(fj) != 0) {
+                Fault x;
+                x.kind = K_NULLENTRY;
+                x.file = fj;
+                out.push_back(x);
+            }
+        }
+    }
     for (const auto &b : bes) {
         if (!allowBlind && !b.fetched) {
             continue;
@@ -935,6 +1022,14 @@ void applyFault(Graph &g, const Fault &f)
             c->kids.clear();
         }
         break;
+    case K_BADENTITY:
+        if (f.ek == 'U') {
+            findU(fs, f.name)->bad = true;
+        } else {
+            findC(fs.comps, f.name)->bad = true;
+        }
+        break;
+    case K_NULLENTRY: fs.state = FS_NULLENTRY; break;
     case K_UNITCYCLE: {
         UEnt *u = findU(fs, f.name);
         if (f.len == 1) {
@@ -1081,6 +1176,14 @@ char buildShape(Src &src, FSpec &f, char kind, int shape, int next, const std::s
         f.units.push_back(uImport(w, next, "u"));
         return 'U';
     }
+    case 10: { // (C07_ext) child d imported, and d (an import element of this file) encapsulates m, imported as well
+        CEnt c = cLocal("c", {"second"});
+        CEnt dd = cImport(d, next, "c");
+        dd.kids.push_back(cImport(e, next, "c"));
+        c.kids.push_back(dd);
+        f.comps.push_back(c);
+        return 'C';
+    }
     default: {
         CEnt c = cLocal("c", {"second"});
         CEnt dd = cLocal(d, {"metre"});
@@ -1102,9 +1205,9 @@ bool genChain(Src &src, int n, bool bounded, bool allowBlind, bool collide, cons
             us.push_back(s);
         }
     }
-    for (int s : {1, 2, 3, 4, 5, 6, 7, 8, 9}) {
-        bool blind = s == 3 || s == 5 || s == 8;
-        if ((allowBlind || !blind) && (!bounded || s <= 6)) {
+    for (int s : {1, 2, 3, 4, 5, 6, 7, 8, 9, 10}) {
+        bool blind = s == 3 || s == 5 || s == 8 || (s == 10 && gDef.fetchSkipsChildrenOfNestedImportElement);
+        if ((allowBlind || !blind) && (!bounded || s <= 6 || s == 10) && (s != 10 || kExt)) {
             cs.push_back(s);
         }
     }
@@ -1306,6 +1409,14 @@ void genDag(Src &src, int n, bool collide, bool allowKnownIn, Graph &g, int &exc
                     uint64_t t2 = src.below(3);
                     if (t2 == 1 && i < n && pickCompTarget(d.file, d.ref)) {
                         d.imp = true;
+                        if (kExt && src.flip(35)) { // something encapsulated below an import element that is itself a child
+                            CEnt m = cLocal("m" + std::to_string(kidSerial++) + "_" + sfx, {someUnits()});
+                            if (src.flip(40) && pickCompTarget(m.file, m.ref)) {
+                                m.imp = true;
+                                m.varUnits.clear();
+                            }
+                            d.kids.push_back(m);
+                        }
                     } else if (t2 == 2) {
                         d.varUnits.push_back(someUnits());
                     } else {
@@ -1328,6 +1439,43 @@ void genDag(Src &src, int n, bool collide, bool allowKnownIn, Graph &g, int &exc
     any = any || std::any_of(all.begin(), all.end(), [](const CEnt *c) { return c->imp; });
     if (!any) {
         f0.units.push_back(uImport("ux", 1, g.files[1].units[0].name));
+    }
+}
+
+// (C07_ext) Chains in nested directories. variant 0: every non-terminal file, f0 included, has the same text (same model name,
+// same relative href "impl/model.cellml", which names a different file at every depth); variant 1: two file names alternate
+// and the directory gets deeper every second step, so the same relative href recurs along one acyclic chain.
+void genNested(int variant, int n, char kind, Graph &g)
+{
+    g.files.clear();
+    for (int i = 0; i <= n; ++i) {
+        FSpec f = newFile(i);
+        if (variant == 0) {
+            f.modelName = "m";
+            for (int k = 0; k < i; ++k) {
+                f.dir += "impl/";
+            }
+            if (i > 0) {
+                f.fname = "model.cellml";
+            }
+        } else if (i > 0) {
+            for (int k = 0; k < (i + 1) / 2; ++k) {
+                f.dir += "sub/";
+            }
+            f.fname = i % 2 == 1 ? "f.cellml" : "g.cellml";
+        }
+        if (i < n) {
+            if (kind == 'U') {
+                f.units.push_back(uImport("u", i + 1, "u"));
+            } else {
+                f.comps.push_back(cImport("c", i + 1, "c"));
+            }
+        } else if (kind == 'U') {
+            f.units.push_back(uLocal("u", {"second"}));
+        } else {
+            f.comps.push_back(cLocal("c", {"second"}));
+        }
+        g.files.push_back(f);
     }
 }
 
@@ -1382,11 +1530,13 @@ enum Phase
     P_FLAT_RS,
     P_RES_RN,
     P_FLAT_RN,
+    P_RES_F2, // the same call once more, nothing changed in between: the answer is a function of the graph
+    P_FLAT_F2,
     P_COUNT
 };
 const char *const kPhaseName[] = {"resolve@healthy", "flatten@healthy", "resolve@fault", "flatten@fault", "resolve@repaired-same-importer", "flatten@repaired-same-importer",
-                                  "resolve@repaired-new-importer", "flatten@repaired-new-importer"};
-const char *const kStateName[] = {"healthy", "healthy", "fault", "fault", "repaired-same-importer", "repaired-same-importer", "repaired-new-importer", "repaired-new-importer"};
+                                  "resolve@repaired-new-importer", "flatten@repaired-new-importer", "resolve@fault-second-call", "flatten@fault-second-call"};
+const char *const kStateName[] = {"healthy", "healthy", "fault", "fault", "repaired-same-importer", "repaired-same-importer", "repaired-new-importer", "repaired-new-importer", "fault-second-call", "fault-second-call"};
 
 struct Scenario
 {
@@ -1397,6 +1547,8 @@ struct Scenario
     std::string dir; // absolute, with trailing '/'
     unsigned skipMask = 0;
     int limit[P_COUNT];
+    bool secondCall = false; // repeat the resolve / flatten of the fault state once
+    std::string hint; // localisation of the generator dimension (C07_ext: "repeated-relative-href", "same-text-as-f0")
     bool cycleThroughComponent = false; // the import cycle made by the fault passes through a child component or the units of a component
     bool deepRecursionExpected = false; // import cycle across directories: the importer only stops when the growing path can no longer be opened
 };
@@ -1449,6 +1601,15 @@ std::string issueClass(const std::string &d)
     return "other";
 }
 
+void makeDirs(const std::string &path)
+{
+    for (size_t p = 1; p <= path.size(); ++p) {
+        if (p == path.size() || path[p] == '/') {
+            mkdir(path.substr(0, p).c_str(), 0777);
+        }
+    }
+}
+
 struct ChildRun
 {
     const Scenario &s;
@@ -1481,6 +1642,9 @@ struct ChildRun
             for (size_t i = 0; i < g.files.size(); ++i) {
                 const FSpec &f = g.files[i];
                 std::string path = s.dir + f.dir + f.fname;
+                if (!f.dir.empty()) {
+                    makeDirs(s.dir + f.dir);
+                }
                 if (f.state == FS_MISSING) {
                     unlink(path.c_str());
                     continue;
@@ -1508,12 +1672,21 @@ struct ChildRun
         }
         for (size_t i = f0Target ? 0 : 1; i < g.files.size(); ++i) {
             const FSpec &f = g.files[i];
-            if (f.state != FS_OK) {
+            if (f.state != FS_OK && f.state != FS_NULLENTRY) {
                 continue;
             }
             auto p = Parser::create(s.strict);
             auto m = p->parseModel(serialise(g, static_cast<int>(i)));
-            if (p->errorCount() != 0 && !f.junk) {
+            bool anyBad = false;
+            for (const auto &u : f.units) {
+                anyBad = anyBad || u.bad;
+            }
+            std::vector<const CEnt *> fc;
+            allComps(f.comps, fc);
+            for (const CEnt *c : fc) {
+                anyBad = anyBad || c->bad;
+            }
+            if (p->errorCount() != 0 && !f.junk && !anyBad) {
                 fail("C07.harness|generated-file-has-parser-errors", f.fname + issues(p));
             }
             if (!im->addModel(m, f.fname)) {
@@ -1550,7 +1723,7 @@ struct ChildRun
             return -1;
         }
         const std::string state = kStateName[p];
-        const std::string after = p >= P_RES_RS ? "|after:" + s.faultKind : "";
+        const std::string after = (p >= P_RES_RS && p <= P_FLAT_RN) ? "|after:" + s.faultKind : "";
         emit(std::string("PHASE\t") + std::to_string(p));
         alarm(static_cast<unsigned>(s.limit[p]));
         bool r = im->resolveImports(m, base);
@@ -1575,10 +1748,11 @@ struct ChildRun
         const std::string firstDesc = im->issueCount() > 0 ? im->issue(0)->description() : "";
         if (ev.sat()) {
             if (!r) {
-                fail("C07.resolve|false-on-satisfiable|" + state + after + "|" + issueClass(firstDesc), "every import of f0 can be satisfied, resolveImports returned false:" + issues(im));
+                fail("C07.resolve|false-on-satisfiable|" + state + after + "|" + issueClass(firstDesc) + (s.hint.empty() ? "" : "|" + s.hint), "every import of f0 can be satisfied, resolveImports returned false:" + issues(im));
             } else {
                 if (m->hasUnresolvedImports()) {
-                    fail("C07.resolved-state|unresolved-after-true|" + state + after + "|unfetched:" + ev.blindToken(), "resolveImports returned true, Model::hasUnresolvedImports() is true");
+                    fail("C07.resolved-state|unresolved-after-true|" + state + after + "|" + ((ev.blindToken() == "nothing" && !s.hint.empty()) ? s.hint : "unfetched:" + ev.blindToken()),
+                         "resolveImports returned true, Model::hasUnresolvedImports() is true");
                 }
                 if (im->errorCount() != 0) {
                     // "true if all imports have been resolved successfully" (importer.h): an error-level issue is a failure report
@@ -1621,7 +1795,7 @@ struct ChildRun
             return;
         }
         const std::string state = kStateName[p];
-        const std::string after = p >= P_RES_RS ? "|after:" + s.faultKind : "";
+        const std::string after = (p >= P_RES_RS && p <= P_FLAT_RN) ? "|after:" + s.faultKind : "";
         emit(std::string("PHASE\t") + std::to_string(p));
         alarm(static_cast<unsigned>(s.limit[p]));
         ModelPtr flat = im->flattenModel(m);
@@ -1638,7 +1812,9 @@ struct ChildRun
                     emit("CNT\tflatten_null_on_unit_cycle");
                 } else {
                     std::string loc = "unfetched:" + ev.blindToken();
-                    if (ev.blindToken() == "nothing" && issueClass(firstDesc) == "cyclic") {
+                    if (ev.blindToken() == "nothing" && !s.hint.empty()) {
+                        loc = s.hint;
+                    } else if (ev.blindToken() == "nothing" && issueClass(firstDesc) == "cyclic") {
                         loc = ev.siblingUnitImports ? "sibling-unit-imports" : "no-sibling-unit-imports";
                     }
                     fail("C07.flatten|null-on-resolved|" + state + after + "|" + issueClass(firstDesc) + "|" + loc, "resolveImports returned true, flattenModel returned null:" + issues(im));
@@ -1662,12 +1838,34 @@ struct ChildRun
             main = parseMain(s.healthy);
             r = resolve(P_RES_H, imp, main, s.evH);
             flatten(P_FLAT_H, imp, main, s.evH, r);
-            if (!s.fileRoute) {
-                imp->removeAllModels();
+            bool nullEntry = false;
+            for (const auto &f : s.faulted.files) {
+                nullEntry = nullEntry || f.state == FS_NULLENTRY;
             }
-            install(s.faulted, imp);
-            if (s.fileRoute) {
-                imp->removeAllModels();
+            if (nullEntry) {
+                // the fault is in the library, not on disk: the entries of the file(s) are replaced by a null model
+                for (size_t j = 0; j < s.faulted.files.size(); ++j) {
+                    if (s.faulted.files[j].state != FS_NULLENTRY) {
+                        continue;
+                    }
+                    const std::string wanted = s.faulted.files[j].modelName.empty() ? "m" + std::to_string(j) : s.faulted.files[j].modelName;
+                    for (size_t k = 0; k < imp->libraryCount(); ++k) {
+                        auto lm = imp->library(k);
+                        if (lm != nullptr && lm->name() == wanted) {
+                            if (!imp->replaceModel(nullptr, imp->key(k))) {
+                                emit("CNT\treplaceModel_null_refused");
+                            }
+                        }
+                    }
+                }
+            } else {
+                if (!s.fileRoute) {
+                    imp->removeAllModels();
+                }
+                install(s.faulted, imp);
+                if (s.fileRoute) {
+                    imp->removeAllModels();
+                }
             }
             if (serialise(s.faulted, 0) != mainText) {
                 main = parseMain(s.faulted);
@@ -1678,6 +1876,10 @@ struct ChildRun
         }
         r = resolve(P_RES_F, imp, main, s.evF);
         flatten(P_FLAT_F, imp, main, s.evF, r);
+        if (s.secondCall) {
+            r = resolve(P_RES_F2, imp, main, s.evF);
+            flatten(P_FLAT_F2, imp, main, s.evF, r);
+        }
         // repair: undo the fault, drop the library cache (the documented way), resolve again with the same importer
         if (!s.fileRoute) {
             imp->removeAllModels();
@@ -1907,7 +2109,8 @@ void run(Src &tapeSrc, Case &c)
     int excludedImportedChildUnits = 0;
 
     // ---- plan-shaping choices first
-    uint64_t universe = src.below(3); // 0: the bounded catalogue (also what --mode ex enumerates), 1: long chains, 2: layered random graphs
+    // 0: the bounded catalogue (also what --mode ex enumerates), 1: long chains, 2: layered random graphs, 3 (C07_ext): nested directories
+    uint64_t universe = src.below(kExt ? 4 : 3);
     if (ex && universe != 0) {
         c.text = "(not part of the bounded universe)";
         c.count("enumeration_skips");
@@ -1930,6 +2133,16 @@ void run(Src &tapeSrc, Case &c)
             return;
         }
         sc.fileRoute = src.below(2) == 0;
+    } else if (universe == 3) {
+        gen = "nested";
+        sc.fileRoute = true; // the hrefs repeat, so they cannot be library keys
+        sc.seqB = src.flip(35);
+        kindPick = static_cast<unsigned>(src.below(40));
+        candPick = static_cast<unsigned>(src.below(65536));
+        const int variant = static_cast<int>(src.below(2));
+        const int n = 2 + static_cast<int>(src.below(3));
+        genNested(variant, n, src.below(2) == 1 ? 'C' : 'U', g);
+        sc.hint = variant == 0 ? "same-text-as-f0" : "repeated-relative-href";
     } else {
         int n = 1 + static_cast<int>(src.below(8));
         sc.fileRoute = src.below(3) != 2;
@@ -1942,7 +2155,7 @@ void run(Src &tapeSrc, Case &c)
         allowBlind = allowKnown || !gDef.shallowFetch();
         collide = allowKnown && src.flip(50);
         layoutSub = sc.fileRoute && src.flip(20);
-        kindPick = static_cast<unsigned>(src.below(33));
+        kindPick = static_cast<unsigned>(src.below(kExt ? 40 : 33));
         candPick = static_cast<unsigned>(src.below(65536));
         if (universe == 1) {
             gen = "chain";
@@ -1982,6 +2195,8 @@ void run(Src &tapeSrc, Case &c)
     sc.strict = !permissive;
 
     // ---- the fault
+    g.parserSeesFiles = sc.fileRoute;
+    sc.secondCall = kExt;
     std::vector<Fault> faults = applicableFaults(g, sc.fileRoute, bounded, allowBlind);
     Fault fault;
     if (bounded) {
@@ -1990,9 +2205,14 @@ void run(Src &tapeSrc, Case &c)
         static const int table[33] = {K_NONE, K_MISSING, K_MISSING, K_MISSING, K_TRUNC0, K_TRUNC0, K_TRUNC_DECL, K_TRUNC_DECL, K_TRUNC_TAG, K_TRUNC_TAG, K_TRUNC_TAG,
                                       K_TRUNC_END, K_TRUNC_END, K_NONCELLML, K_NONCELLML, K_NONCELLML, K_REMOVED, K_REMOVED, K_REMOVED, K_REMOVED, K_RENAMED, K_RENAMED, K_RENAMED,
                                       K_BACKEDGE, K_BACKEDGE, K_BACKEDGE, K_BACKEDGE, K_BACKEDGE, K_BACKEDGE, K_UNITCYCLE, K_UNITCYCLE, K_UNITCYCLE, K_UNITCYCLE};
+        static const int tableExt[40] = {K_NONE, K_MISSING, K_MISSING, K_TRUNC0, K_TRUNC_DECL, K_TRUNC_TAG, K_TRUNC_TAG, K_TRUNC_END, K_NONCELLML, K_NONCELLML, K_REMOVED, K_REMOVED, K_REMOVED,
+                                         K_RENAMED, K_RENAMED, K_BACKEDGE, K_BACKEDGE, K_BACKEDGE, K_BACKEDGE, K_BACKEDGE, K_UNITCYCLE, K_UNITCYCLE, K_UNITCYCLE,
+                                         K_BADENTITY, K_BADENTITY, K_BADENTITY, K_BADENTITY, K_BADENTITY, K_BADENTITY, K_BADENTITY, K_BADENTITY, K_NULLENTRY, K_NULLENTRY, K_NULLENTRY, K_NULLENTRY, K_NULLENTRY,
+                                         K_MISSING, K_REMOVED, K_BACKEDGE, K_NONE};
+        const unsigned tableSize = kExt ? 40 : 33;
         std::vector<const Fault *> cands;
-        for (unsigned t = 0; t < 33 && cands.empty(); ++t) {
-            int kind = table[(kindPick + t) % 33];
+        for (unsigned t = 0; t < tableSize && cands.empty(); ++t) {
+            int kind = kExt ? tableExt[(kindPick + t) % tableSize] : table[(kindPick + t) % tableSize];
             bool preferNeeded = (candPick & 7u) != 0;
             for (int pass = 0; pass < 2 && cands.empty(); ++pass) {
                 for (const auto &f : faults) {
@@ -2007,6 +2227,9 @@ void run(Src &tapeSrc, Case &c)
             fault.pick = static_cast<unsigned>(src.below(4096));
             fault.pick2 = static_cast<unsigned>(src.below(4096));
         }
+    }
+    if (fault.kind == K_NULLENTRY) {
+        sc.seqB = true; // the library has to be filled before an entry can be replaced
     }
     sc.healthy = g;
     sc.faulted = g;
@@ -2042,7 +2265,7 @@ void run(Src &tapeSrc, Case &c)
     if (fault.kind == K_BACKEDGE) {
         for (const auto &t : sc.evF.tops) {
             for (const auto &fl : t.fails) {
-                cycleThroughComponent = cycleThroughComponent || (fl.reason == "import-cycle" && fl.path.find_first_of("cvn") != std::string::npos);
+                cycleThroughComponent = cycleThroughComponent || (fl.reason == "import-cycle" && fl.path.find_first_of("cvne") != std::string::npos);
             }
         }
     }
@@ -2178,6 +2401,7 @@ void run(Src &tapeSrc, Case &c)
         c.count(std::string("defect-probe:unit-cycle-overflow=") + (gDef.unitCycleOverflow ? "present" : "absent"));
         c.count(std::string("defect-probe:flatten-after-cycle-through-component=") + (gDef.flattenAfterCycle ? "present" : "absent"));
         c.count(std::string("defect-probe:flatten-null-child-units=") + (gDef.flattenNullChildUnits ? "present" : "absent"));
+        c.count(std::string("defect-probe:fetch-skips-children-of-nested-import-element=") + (gDef.fetchSkipsChildrenOfNestedImportElement ? "present" : "absent"));
     }
 
     // ---- run
@@ -2238,7 +2462,7 @@ void run(Src &tapeSrc, Case &c)
                     r = r3;
                 }
             }
-            const bool nestedChain = p % 2 == 1 && (p == P_FLAT_F ? sc.evF : sc.evH).nestedUnitsChainWithLocalChild;
+            const bool nestedChain = p % 2 == 1 && ((p == P_FLAT_F || p == P_FLAT_F2) ? sc.evF : sc.evH).nestedUnitsChainWithLocalChild;
             std::string loc = collision && p % 2 == 1 ? "|colliding-names" : (cycleThroughComponent && p == P_FLAT_F ? "|cycle-through-component" : (nestedChain ? "|nested-imported-units-chain-with-local-child" : ""));
             fails.emplace_back(std::string("C07.crash|") + kPhaseName[p] + "|" + sc.faultKind + "|" + crashToken(r) + loc,
                                std::string(kPhaseName[p]) + " killed the process (" + std::to_string(r.ret) + "):\n" + r.diag.substr(r.diag.size() > 2500 ? r.diag.size() - 2500 : 0));
@@ -2280,6 +2504,16 @@ void run(Src &tapeSrc, Case &c)
     for (size_t i = 0; i < g.files.size(); ++i) {
         unlink((sc.dir + g.files[i].fname).c_str());
         unlink((sc.dir + "sub/" + g.files[i].fname).c_str());
+        unlink((sc.dir + g.files[i].dir + g.files[i].fname).c_str());
+    }
+    for (size_t i = g.files.size(); i-- > 0;) { // nested directories (C07_ext), deepest first
+        std::string d = g.files[i].dir;
+        while (!d.empty() && d != "sub/") {
+            rmdir((sc.dir + d).c_str());
+            d.erase(d.size() - 1);
+            size_t q = d.rfind('/');
+            d = q == std::string::npos ? std::string() : d.substr(0, q + 1);
+        }
     }
 }
 
@@ -2369,6 +2603,15 @@ Graph probeGraph(int which)
         g.files[0].units.push_back(uImport("u", 1, "u"));
         g.files[1].units.push_back(uLocal("u", {"second", "u"}));
         break;
+    case 7: { // f1: c with an imported child d1; d1 (an import element of f1) encapsulates m1, imported from f3
+        g.files[0].comps.push_back(cImport("c", 1, "c"));
+        CEnt c = cLocal("c", {"second"});
+        CEnt d = cImport("d1", 2, "c");
+        d.kids.push_back(cImport("m1", 3, "c"));
+        c.kids.push_back(d);
+        g.files[1].comps.push_back(c);
+        break;
+    }
     case 6: { // f0: c imported, with a local child that uses units imported by f0
         CEnt c = cImport("c", 1, "c");
         c.kids.push_back(cLocal("d0", {"u0"}));
@@ -2410,7 +2653,7 @@ void probeChild(void *arg)
     auto m = p->parseModel(serialise(g, 0));
     bool r = imp->resolveImports(m, "/nonexistent-c07/");
     bool present;
-    if (which <= 2) {
+    if (which <= 2 || which == 7) {
         present = r && m->hasUnresolvedImports();
     } else if (which == 3) {
         present = r && imp->flattenModel(m) == nullptr;
@@ -2433,8 +2676,8 @@ void probeChild(void *arg)
 void probeDefects()
 {
     bool *flags[] = {&gDef.fetchSkipsUnitChildOfLocalUnitChild, &gDef.fetchSkipsUnitChildOfComponentUnits, &gDef.fetchSkipsUnitsOfChildComponent,
-                     &gDef.falseFlattenCycle, &gDef.unitCycleOverflow, &gDef.flattenAfterCycle, &gDef.flattenNullChildUnits};
-    for (int i = 0; i < 7; ++i) {
+                     &gDef.falseFlattenCycle, &gDef.unitCycleOverflow, &gDef.flattenAfterCycle, &gDef.flattenNullChildUnits, &gDef.fetchSkipsChildrenOfNestedImportElement};
+    for (int i = 0; i < 8; ++i) {
         ProbeJob job {i};
         std::string diag;
         int ret = runIsolated(probeChild, &job, 0, &diag);
